@@ -1080,6 +1080,43 @@ func c13Tasks(tier string) []mc.Task {
 			}}})
 		}
 	}
+	// ---- (D4) row-count sweep: n pairwise distinct rows, n around 64, 100, 128, 200, 256, 400, 1024 (the
+	// capacities growing slices and tables start from and double to), then duplicates of the first, middle,
+	// 100th, 101st and last distinct row; and the same with the duplicates interleaved every 50 rows
+	ts = append(ts, c13SizedTask{1 << 18, mc.Task{Name: "dedup#row-count-sweep", Run: func(c *mc.Ctx) {
+		row := func(k int) string {
+			b := make([]byte, 6)
+			for j := range b {
+				b[j] = "ACGT"[(k>>(2*j))&3]
+			}
+			return string(b)
+		}
+		for _, base := range []int{64, 100, 128, 200, 256, 400, 1024} {
+			for d := -1; d <= 2; d++ {
+				n := base + d
+				var tail, mixed []string
+				for k := 0; k < n; k++ {
+					tail = append(tail, row(k))
+					mixed = append(mixed, row(k))
+					if k%50 == 49 {
+						mixed = append(mixed, row(k/2), row(0))
+					}
+				}
+				for _, k := range []int{0, n / 2, 99, 100, n - 1, 0} {
+					if k < n {
+						tail = append(tail, row(k))
+					}
+				}
+				for _, seqs := range [][]string{tail, mixed} {
+					c13Check(c, c13Case{Op: "dedup", Kind: "aln", Alpha: align.NUCLEOTIDS, Seqs: seqs})
+					c13Check(c, c13Case{Op: "dedup", Kind: "bag", Alpha: align.NUCLEOTIDS, NAsGap: true, Seqs: seqs})
+				}
+				if c.Expired() {
+					return
+				}
+			}
+		}
+	}}})
 	// ---- (S) long inputs under the controlled scheduler: Compress and Deduplicate on 3 x 4500 and 40 x 30
 	// alignments (longer than any block size a parallel version would plausibly use).  Sequential code:
 	// one execution each; code that spawns goroutines: every interleaving within one preemption.
@@ -1118,7 +1155,7 @@ func init() {
 	mc.Register(&mc.Prop{
 		ID:    "C13",
 		Level: "exploration",
-		Rule: cliStreamRule[1:] + " " + "(also: Compress and Deduplicate on 3-row alignments of every length within 2 of 256, 512, 768, 1000, 1024, 2000, 2048; Compress on every 2x3 and 2x4 [thorough 3x3] alignment over {M,L,N,-}, {A,B,N,-}, {A,B,R,-}, {A,B,C,D}, letter sets in which two different columns collide under the usual polynomial string hashes and byte sums; every one-column alignment of 13..16 rows over {A,C}; Compress and Deduplicate on 3x4500 and 40x30 alignments against the oracle and under the controlled scheduler, preemption bound 1 — one execution unless the operation spawns goroutines;) bounded-exhaustive enumeration, nucleotide letters {A,-,N,C,X} / protein letters {A,-,X,C,N} taken as the first k of that list, rows named q,b,z,a,m,c,... with distinct comments. " +
+		Rule: cliStreamRule[1:] + " " + "(also: Compress and Deduplicate on 3-row alignments of every length within 2 of 256, 512, 768, 1000, 1024, 2000, 2048; Compress on every 2x3 and 2x4 [thorough 3x3] alignment over {M,L,N,-}, {A,B,N,-}, {A,B,R,-}, {A,B,C,D}, letter sets in which two different columns collide under the usual polynomial string hashes and byte sums; every one-column alignment of 13..16 rows over {A,C}; Deduplicate on n pairwise distinct rows, n within -1..+2 of 64, 100, 128, 200, 256, 400, 1024, followed by (or interleaved every 50 rows with) duplicates of the first, middle, 100th, 101st and last of them; Compress and Deduplicate on 3x4500 and 40x30 alignments against the oracle and under the controlled scheduler, preemption bound 1 — one execution unless the operation spawns goroutines;) bounded-exhaustive enumeration, nucleotide letters {A,-,N,C,X} / protein letters {A,-,X,C,N} taken as the first k of that list, rows named q,b,z,a,m,c,... with distinct comments. " +
 			"DEDUP on alignments: every n x L matrix for n<=4, L<=2 (k=5), n<=3, L=3 (k=4), 4x3 (k=3), 5x1, 6x1, 2x4 (k=4), 5x2, 6x2, 2x5, 3x4 (k=3), and the alignment without rows; thorough adds 4x3, 3x4, 5x2, 6x2, 2x5 (k=4), 2x6, 7x2, 5x3 (k=3), 3x3 (k=5). " +
 			"DEDUP on sequence sets (ragged): every n-tuple of strings of length 0..m for (n,m,k) = (1..3,3,4), (4,2,4), (5,2,3), (3,2,5), and the set without sequences; thorough adds (4,3,3), (5,2,4), (3,4,3). " +
 			"Every dedup input is run for both alphabets and both nAsGap values, Deduplicate applied twice. " +
